@@ -294,6 +294,11 @@ def run_tree(case, ctx):
         except Exception as e:
             ctx.violation(f'build|{rname}|raises-{type(e).__name__}', **rinfo, error=repr(e))
             continue
+        # the same selections on a second fresh instance whose arrays have not been built yet (nothing read before selecting)
+        try:
+            selector_battery(ctx, f'select-before-any-read|{rname}', build(), tuples, rinfo, full=False, containers=False)
+        except Exception as e:
+            ctx.violation(f'select-before-any-read|{rname}|raises-{type(e).__name__}', **rinfo, error=repr(e))
         check_views(ctx, f'views|{rname}', ih, tuples, rinfo)
         selector_battery(ctx, 'select' if rname == 'from_labels' else f'select|{rname}', ih, tuples, rinfo, full=rname in ('from_labels', 'from_labels(GO)+appends'),
                          containers=rname == 'from_labels')
